@@ -299,3 +299,13 @@ func (rc *RunCtx) cmdMustSucceed(co *CmdOutcome, class string, what string) bool
 	}
 	return true
 }
+
+// cleanup removes a run directory unless VERIF_KEEP is set (debugging aid).
+func cleanup(dir string) {
+	if keep := os.Getenv("VERIF_KEEP"); keep != "" {
+		os.MkdirAll(keep, 0755)
+		os.Rename(dir, filepath.Join(keep, filepath.Base(dir)))
+		return
+	}
+	os.RemoveAll(dir)
+}
